@@ -46,6 +46,7 @@ def cmd_digests(a) -> int:
         return 0
     pi = a.pool if a.pool is not None else (next(iter(by_pool)) if by_pool else 0)
     worker.init_worker(a.repo, meta.META["pools"][pi], a.prop)
+    worker._STATE["batch_seed"] = a.seed
     mod = worker.get_prop(a.prop)
     out = {}
     for i in by_pool.get(pi, []):
@@ -84,6 +85,7 @@ def cmd_show(a) -> int:
     rs = run_seed(a.prop, a.seed, a.index)
     pi = meta.pool_of(rs, a.index)
     worker.init_worker(a.repo, meta.META["pools"][pi], a.prop)
+    worker._STATE["batch_seed"] = a.seed
     mod = worker.get_prop(a.prop)
     trace = mod.gen(rs, a.index, a.tier)
     res = mod.execute(trace)
